@@ -268,11 +268,12 @@ def line_type(line):
             '<SUB>': 'Substitution'}.get(alt, 'SNV')
 
 
-def gvf_header(is_circ, types=(), source=None):
+def gvf_header(is_circ, types=(), source=None, genome_fasta=None):
     """Header lines of a GVF file, independent of process-global state (S10)."""
     md = GVFMetadata(
         parser='parseCIRCexplorer' if is_circ else 'parseVEP',
         source=source or ('circRNA' if is_circ else 'gSNP'), chrom='Gene ID',
+        genome_fasta=genome_fasta,
         info=copy.deepcopy(GVF_METADATA_INFO['Base']))
     if is_circ:
         md.add_info('circRNA')
@@ -281,6 +282,6 @@ def gvf_header(is_circ, types=(), source=None):
     return md.to_strings() + ['#' + '\t'.join(GVF_HEADER)]
 
 
-def gvf_text(lines, is_circ, source=None):
+def gvf_text(lines, is_circ, source=None, genome_fasta=None):
     types = [] if is_circ else [line_type(l) for l in lines]
-    return '\n'.join(gvf_header(is_circ, types, source) + list(lines)) + '\n'
+    return '\n'.join(gvf_header(is_circ, types, source, genome_fasta) + list(lines)) + '\n'
